@@ -16,9 +16,14 @@ NOT_COVERED = [
     'repacketizer carriage of extensions (merge/split/pad): the theorem is OpusProps.C07.out_roundtrip_ext (built on generate_parse / '
     'generate_parse_padded of this property); here it is tied differentially (S3, ext-repack) and searched on the implementation (S4)',
     'opus_int32 overflow of lengths: lengths are unbounded integers in the model (buffers < 2^31 assumed)',
-    'iterator with nb_frames = 0 and a caller-raised frame_max > 0 (API misuse; the code then reports frame-0 extensions)',
+    'iterator constructed with nb_frames = 0 whose frame_max is then raised above 0 by opus_extension_iterator_set_frame_max: the code then '
+    'reports frame-0 extensions although no frame exists. Not reachable through the public API: the extension functions are declared '
+    'only in src/opus_private.h (no OPUS_EXPORT, not in include/), set_frame_max has no caller inside the library, and the two internal '
+    'callers that can pass nb_frames = 0 (repacketizer.c:151,170 for the non-first frames of a packet) pass len = 0 and never touch '
+    'frame_max. iter_safe therefore carries the precondition nb_frames = 0 -> frame_max <= 0 (Reach.setFrameMax)',
 ]
 ASSUMPTIONS = ['len argument equals the length of the supplied buffer (exact-size heap blocks under ASan)',
+               'callers of the (library-internal) iterator do not raise frame_max above 0 on an iterator created with nb_frames = 0',
                'extension payload pointers supply at least len readable bytes']
 REQUIRED_THEOREMS = ['OpusProps.C16.iter_safe', 'OpusProps.C16.iter_terminates', 'OpusProps.C16.count_parse_agree',
                      'OpusProps.C16.parse_ext_stable_sort',
